@@ -811,8 +811,84 @@ class Interp:
             out[i] = acc
         return out.reshape(off.shape)
 
+    def _conv_onehot(self, e, ins):
+        """convolution of a large symbolic lhs with a concrete kernel of few taps, without the dense Jacobian: for each
+        non-zero tap the primitive itself is run on an id array with the one-hot kernel (pure data movement: every output
+        is one input entry or 0), the ids are mapped back to terms, scaled by the tap and summed.  Returns None if the
+        call does not fit (then the dense route is taken)."""
+        prm = e.params
+        if prm.get("feature_group_count", 1) != 1 or prm.get("batch_group_count", 1) != 1:
+            return None
+        dt = np.dtype(e.invars[0].aval.dtype)
+        if not np.issubdtype(dt, np.floating) or dt.itemsize < 4:
+            return None
+        lhs = lift(ins[0])
+        rhs = np.asarray(to_numeric(ins[1]) if is_obj(ins[1]) else ins[1])
+        taps = list(zip(*np.nonzero(rhs)))
+        if len(taps) > 64 or (dt.itemsize == 4 and lhs.size >= 2**24 - 1):
+            return None
+        ids = jnp.asarray(np.arange(1, lhs.size + 1).reshape(lhs.shape).astype(dt))
+        pool = np.empty(lhs.size + 1, dtype=object)
+        pool[0] = 0
+        pool[1:] = lhs.reshape(-1)
+        out = None
+        for tap in taps:
+            k = np.zeros(rhs.shape, dtype=e.invars[1].aval.dtype)
+            k[tap] = 1
+            moved = np.asarray(e.primitive.bind(ids, jnp.asarray(k), **prm))
+            mi = np.rint(moved).astype(np.int64)
+            if not np.array_equal(mi.astype(moved.dtype), moved) or mi.min(initial=0) < 0 or mi.max(initial=0) > lhs.size:
+                return None
+            term = pool[mi]
+            coef = rhs[tap].item()
+            if coef != 1:
+                if coef == int(coef):
+                    coef = int(coef)
+                term = ew(lambda v, coef=coef: sc.mul(coef, v), term)
+            out = term if out is None else ew(sc.add, out, term)
+        if out is None:
+            out = lift(np.zeros(e.outvars[0].aval.shape))
+        return out
+
+    def p_gather(self, e, ins):
+        """gather with *symbolic* indices into one operand dimension (``A[idx]``): the gather is executed by JAX once per
+        possible index value and the results are merged with an If chain on the controlling index entry.  Concrete
+        indices take the ordinary data-movement route.  In-range indices are recorded as a side condition."""
+        operand, indices = ins[0], ins[1]
+        if not (is_obj(indices) and has_z3(indices)):
+            return self._move(e, ins)
+        dn = e.params["dimension_numbers"]
+        if len(dn.start_index_map) != 1 or tuple(getattr(dn, "operand_batching_dims", ())) or tuple(getattr(dn, "start_indices_batching_dims", ())):
+            raise NotEncodable("gather with symbolic indices into more than one operand dimension")
+        dim = dn.start_index_map[0]
+        nk = np.shape(operand)[dim] - e.params["slice_sizes"][dim] + 1
+        idx = lift(indices)
+        if idx.shape[-1] != 1:
+            raise NotEncodable("gather: symbolic index vector of length != 1")
+        outs = [lift(self._move(e, [operand, np.full(idx.shape, k, dtype=e.invars[1].aval.dtype)])) for k in range(nk)]
+        oshape = outs[0].shape
+        bpos = [d for d in range(len(oshape)) if d not in tuple(dn.offset_dims)]
+        res = np.empty(oshape, dtype=object)
+        seen = set()
+        for p in np.ndindex(*oshape):
+            ip = tuple(p[d] for d in bpos) + (0,)
+            iv = idx[ip]
+            if isz(iv) and ip not in seen:
+                seen.add(ip)
+                self._side("gather_in_range", z3.And(iv >= 0, iv <= nk - 1), "symbolic gather index within the operand")
+            acc = outs[nk - 1][p]
+            for k in range(nk - 2, -1, -1):
+                acc = sc.ite(sc.eq(iv, k), outs[k][p], acc)
+            res[p] = acc
+        return res
+
     def p_conv_general_dilated(self, e, ins):
         l, r = ins
+        if is_obj(l) and not (is_obj(r) and has_z3(r)) and lift(l).size * int(np.prod(e.outvars[0].aval.shape)) > 4_000_000:
+            # the dense Jacobian of the generic route would not fit: sparse one-hot route (large inputs only)
+            res = self._conv_onehot(e, ins)
+            if res is not None:
+                return res
         if is_obj(l) and has_z3(l) and not (is_obj(r) and has_z3(r)):
             return self._linear_in(e, ins, 0)
         if is_obj(r) and has_z3(r) and not (is_obj(l) and has_z3(l)):
